@@ -32,8 +32,10 @@ func NewRand(seed uint64) *Rand {
 func Mix(seed uint64, labels ...uint64) uint64 {
 	x := seed
 	for _, l := range labels {
-		x ^= l + 0x9e3779b97f4a7c15 + (x << 6) + (x >> 2)
-		_ = splitmix(&x)
+		// fold each label through the full mixer: neighbouring (worker, run)
+		// pairs must not collide
+		y := x ^ (l+1)*0xd1342543de82ef95
+		x = splitmix(&y)
 	}
 	return splitmix(&x)
 }
